@@ -136,6 +136,21 @@ def check_robust(R, variant, yy, nodata, llas, p, ykind):
     if not ok:
         R.violation("C05:off-grid-robust", f"{variant}(robust): reported lambda {lopt!r} is not one of 10**srange", case)
         return
+    # (b) the result does not depend on how the missing cells are encoded (finite placeholders, NaN, +-inf)
+    if (~valid).any():
+        lo_v, hi_v = float(ycl[valid].min()), float(ycl[valid].max())
+        others = [v for v in (-3000.0, -32768.0, 32767.0, 30000.0, 1e30) if v != nodata and not (lo_v <= v <= hi_v)]
+        for lab, val, nd2 in [("nan", np.nan, nodata), ("+inf", np.inf, nodata), ("-inf", -np.inf, nodata)] + [(f"placeholder {v:g}", v, v) for v in others[:2]]:
+            y2 = np.where(valid, yy, val)
+            try:
+                b2, l2 = S.call(variant, y2, nd2, prm)
+            except Exception as e:
+                R.violation("C05:placeholder-robust", f"{variant}(robust) raises {type(e).__name__} when missing cells are encoded as {lab}", dict(case, encoding=lab))
+                return
+            R.count("placeholder_pairs_robust")
+            if float(l2) != lopt or not np.array_equal(np.array(b2), band):
+                R.violation("C05:placeholder-robust", f"{variant}(robust): result depends on the encoding of the missing cells ({lab}): lambda {lopt:.6g} vs {float(l2):.6g}, {int(np.sum(np.array(b2) != band))} cells differ", dict(case, encoding=lab))
+                return
     # (d) degenerate residual distributions are smoothed, not zeroed
     yv = ycl[valid]
     if ykind == "const":
@@ -340,7 +355,7 @@ def run_shard(spec, R):
 def finalize(agg, tier):
     c = agg["counters"]
     out = []
-    for k in ("grid_membership", "band_vs_fixed", "optimal_tier1", "optimal_tier2", "grid_membership_robust", "degenerate_const",
+    for k in ("grid_membership", "band_vs_fixed", "optimal_tier1", "optimal_tier2", "grid_membership_robust", "placeholder_pairs_robust", "degenerate_const",
               "degenerate_linear", "degenerate_flatspikes", "accessor_pixels", "accessor_default_robust"):
         if c.get(k, 0) == 0:
             out.append(f"monitor/class {k} never observed")
